@@ -1504,6 +1504,7 @@ Proof.
       - simpl. rewrite app_nil_r. reflexivity.
       - assert (offset = 0) as -> by lia. reflexivity. }
     rewrite P.
+    rewrite (Z.add_comm offset).
     rewrite <- (zskipn_zskipn _ offset buf) by (try apply zlen_nonneg; lia).
     unfold zfirstn at 2 3, zskipn at 1, zlen.
     rewrite Nat2Z.id. rewrite firstn_skipn_len. apply zfirstn_zskipn.
